@@ -1,16 +1,16 @@
 #!/bin/bash
 # usage: seed_store.sh <id> <property> "<needs>" "<caught-by>"   - copy a confirmed seeded change into /verif/seeded/<id>/
-id=$1; prop=$2; needs=$3; caught=$4
-d=/verif/seeded/$id; mkdir -p $d
+id=$1; prop=$2; needs=$3; caught=$4; dest=${5:-$1}
+d=/verif/seeded/$dest; mkdir -p $d
 cp /tmp/seed_$id.out/patch.diff /tmp/seed_$id.out/demo.sh $d/ 2>/dev/null
 cp /tmp/seed_$id.out/notes.md $d/notes.md 2>/dev/null
-python3 - "$id" "$prop" "$needs" "$caught" <<'PY'
+python3 - "$id" "$prop" "$needs" "$caught" "$dest" <<'PY'
 import json,sys
-id,prop,needs,caught=sys.argv[1:5]
+id,prop,needs,caught,dest=sys.argv[1:6]
 log=open('/tmp/seed_eval_%s.log'%id).read() if __import__('os').path.exists('/tmp/seed_eval_%s.log'%id) else ''
-json.dump({"id":id,"breaks_property":prop,"needs_to_manifest":needs,
+json.dump({"id":dest,"breaks_property":prop,"needs_to_manifest":needs,
  "confirmed":{"cargo_test_with_change":"74 passed" in log or "test result: ok" in log,"demo_with_change_rc":1 if "demo_with_change rc=1" in log else None,"demo_clean_rc":0 if "demo_clean rc=0" in log else None},
  "what_i_ran":"tools/seed_eval.sh %s: cargo test --offline in the scratch worktree with the change, demo.sh against the changed and an unchanged worktree, then `git -C /repo apply patch.diff`, ./check <ids>, `git -C /repo checkout -- .`"%id,
  "caught_by":caught,
- "check_output":[l for l in log.splitlines() if l.startswith(("VIOLATION","property="))]},open('/verif/seeded/%s/meta.json'%id,'w'),indent=1)
+ "check_output":[l for l in log.splitlines() if l.startswith(("VIOLATION","property="))]},open('/verif/seeded/%s/meta.json'%dest,'w'),indent=1)
 PY
